@@ -26,6 +26,8 @@ type Config struct {
 	OddEntNames bool // entity names where ToCamel(name+"State") != ToCamel(name)+"State"
 	Capture     bool // allow inline names equal to an ancestor's name
 	ListMethods bool // some methods take a j5.list.v1.QueryRequest and answer one array of objects
+	NestedPkgs  bool // local packages whose directory lies below another local package's (foo.v1 / foo.v1.types.v2): the compiler
+	// takes them, the client API derivation refuses a package name with two version elements
 }
 
 func DefaultConfig() Config {
@@ -123,7 +125,7 @@ func (g *Gen) Bundle() *Bundle {
 		case pendingOuter != "":
 			// the package whose directory CONTAINS the directory of the previous package
 			name, pendingOuter = pendingOuter, ""
-		case pi > 0 && g.chance(1, 6):
+		case pi > 0 && g.Cfg.NestedPkgs && g.chance(1, 6):
 			// a package whose directory lies BELOW that of an earlier package (platform.v1 / platform.v1.billing.v1)
 			for try := 0; try < 20 && name == ""; try++ {
 				w := pick(g, pkgWords)
@@ -163,7 +165,7 @@ func (g *Gen) Bundle() *Bundle {
 			if !used[name] && !used["seg:"+key] {
 				used[name] = true
 				used["seg:"+key] = true
-				if pi+1 < npkg && g.chance(1, 8) {
+				if pi+1 < npkg && g.Cfg.NestedPkgs && g.chance(1, 8) {
 					// this package becomes the inner one: the next package of the bundle is its directory's parent
 					w := pick(g, pkgWords)
 					inner := name + "." + w + fmt.Sprintf(".v%d", 1+g.n(2))
